@@ -738,7 +738,17 @@ func (e *Exec) havocClause(env *Env, st *State, fc *FuncContract, m string) {
 	}
 	dot := strings.LastIndex(m, ".")
 	if dot < 0 {
-		fatalf("%s: bad modifies entry %q", fc.Key, m)
+		names := e.P.modArrays(fc, m)
+		if names == nil {
+			fatalf("%s: bad modifies entry %q", fc.Key, m)
+		}
+		for _, n := range names {
+			if _, ok := e.arrSort[n]; !ok {
+				e.arrTerm(st, n, e.P.arrSortByName(n))
+			}
+			e.havocArr(st, n)
+		}
+		return
 	}
 	baseSrc, fname := m[:dot], m[dot+1:]
 	rootName := baseSrc
